@@ -26,6 +26,7 @@ func init() {
 			"reentrant: finite product of callback scenarios (user code inside exec/test/match/replace/search/split that logs lastIndex/global, assigns lastIndex or calls exec/test/match re-entrantly) x initial lastIndex; non-trivial when a callback ran during matching or lastIndex changed. " +
 			"literals: every history of <= 2 operations over two RegExp objects obtained from the same literal text (same site twice, loop body, two sites, literal + new RegExp(A)), plus a third object checked for freshness. " +
 			"argkinds: finite table of String-side entry points x argument kinds (absent, undefined, null, number, boolean, pattern-like strings, RegExp, object, arrays) x subjects containing the kinds' text. " +
+			"litscan: every character class of <= 3 items over {a, /, \\/, \\], \\\\, [, ^, -} in 4 contexts, as literal source text and through the constructor. " +
 			"subst/flags: finite tables.",
 		Families: []engine.Family{
 			{Name: "patterns", Run: runPatterns},
@@ -35,6 +36,7 @@ func init() {
 			{Name: "reentrant", Run: runReentrant},
 			{Name: "literals", Run: runLiterals},
 			{Name: "argkinds", Run: runArgKinds},
+			{Name: "litscan", Run: runLitScan},
 			{Name: "subst", Run: runSubst},
 			{Name: "flags", Run: runFlags, Solo: true},
 		},
